@@ -22,7 +22,7 @@ Fixpoint kf_td_under_union (t : ty) : bool :=
   | TTypedDict r o =>
       existsb (fun f => kf_td_under_union (snd f)) r || existsb (fun f => kf_td_under_union (snd f)) o
   end.
-Notation tdu := kf_td_under_union.
+Notation tdu := kf_td_under_union (only parsing).
 
 Lemma existsb_false_iff {A} (f : A -> bool) l : existsb f l = false <-> forall x, In x l -> f x = false.
 Proof.
